@@ -1,1 +1,174 @@
-// harness stub: nothing here yet
+// Correspondence harness for the daemon-side MRT code of daemon/src/mrt.rs
+// (property C19): adj_rib_in_to_mrt and dump_table.  Included as the body of
+// `mrt::verif_hx` under cfg(all(test, osrg_rustybgp_verif)).
+use super::*;
+
+#[allow(dead_code)]
+mod val {
+    include!(concat!(env!("VERIF_HX_DIR"), "/common/val.rs"));
+}
+#[allow(dead_code)]
+mod caps {
+    include!(concat!(env!("VERIF_HX_DIR"), "/common/caps.rs"));
+}
+#[allow(dead_code)]
+mod mon {
+    include!(concat!(env!("VERIF_HX_DIR"), "/common/mon.rs"));
+}
+use val::Val;
+
+use rustybgp_table as table;
+use std::sync::Arc;
+
+fn source_of(v: &Val) -> Arc<table::Source> {
+    let l = v.list();
+    Arc::new(table::Source::new(
+        mon::ip_of(&l[0]),
+        mon::ip_of(&l[1]),
+        l[2].u32(),
+        l[3].u32(),
+        mon::v4_of(&l[4]),
+        table::PeerRole::Ebgp,
+    ))
+}
+
+fn change_of(v: &Val) -> AdjRibInChange {
+    let l = v.list();
+    AdjRibInChange {
+        source: source_of(&l[0]),
+        family: mon::fam_of(&l[1]),
+        addpath: l[2].bool(),
+        nlris: mon::entries_of(&l[3]),
+        attrs: l[4].list().first().map(mon::attrs_of),
+        nexthop: mon::nexthop_of(&l[5]),
+        timestamp: l[6].u32(),
+    }
+}
+
+fn now_secs() -> u32 {
+    std::time::SystemTime::now()
+        .duration_since(std::time::SystemTime::UNIX_EPOCH)
+        .unwrap()
+        .as_secs() as u32
+}
+
+fn changes_val(cs: &[table::NlriChange]) -> (Val, Val) {
+    let mut desc = Vec::new();
+    let mut side = Vec::new();
+    for c in cs {
+        desc.push(Val::L(vec![
+            mon::nlri_val(&c.net),
+            Val::L(
+                c.current_paths
+                    .iter()
+                    .map(|p| {
+                        Val::L(vec![
+                            mon::ip_val(&p.source.remote_addr),
+                            Val::n(p.source.router_id),
+                            Val::n(p.source.remote_asn),
+                            mon::nexthop_val(&p.nexthop),
+                        ])
+                    })
+                    .collect(),
+            ),
+        ]));
+        side.push(Val::L(vec![
+            Val::from_bytes(&c.net.encode_to_bytes()),
+            Val::L(c.current_paths.iter().map(|p| mon::attrs_val(&p.attr)).collect()),
+        ]));
+    }
+    (Val::L(desc), Val::L(side))
+}
+
+fn run_case(case: &Val) -> Val {
+    let l = case.list();
+    match l[0].int() {
+        0 => {
+            let change = change_of(&l[1]);
+            let msg = adj_rib_in_to_mrt(&change);
+            let mrt::Message::Mp { body, addpath, .. } = &msg;
+            let blob = mon::ref_encode(body, *addpath);
+            let desc = mon::msg_val(body);
+            let ap = *addpath;
+            let mut codec = mrt::MrtCodec::new();
+            let mut buf = bytes::BytesMut::new();
+            let t0 = now_secs();
+            codec.encode(&msg, &mut buf).expect("verif: mrt encode");
+            let t1 = now_secs();
+            let mut ts_ok = !buf.is_empty();
+            let mut p = 0;
+            while p < buf.len() {
+                if p + 12 > buf.len() {
+                    ts_ok = false;
+                    break;
+                }
+                let ts = u32::from_be_bytes([buf[p], buf[p + 1], buf[p + 2], buf[p + 3]]);
+                if ts < t0 || ts > t1 {
+                    ts_ok = false;
+                }
+                for k in 0..4 {
+                    buf[p + k] = 0;
+                }
+                p += 12 + u32::from_be_bytes([buf[p + 8], buf[p + 9], buf[p + 10], buf[p + 11]]) as usize;
+            }
+            Val::L(vec![Val::from_bytes(&buf), Val::from_bytes(&blob), desc, Val::b(ap), Val::b(ts_ok)])
+        }
+        1 => {
+            // [1, router_id, [[source, family, nlri, path_id, nexthop, attrs]...]]
+            let tables: TableHandle = Arc::new(crate::table_manager::TableManager::new(1));
+            for r in l[2].list() {
+                let r = r.list();
+                tables.insert_route(
+                    source_of(&r[0]),
+                    mon::fam_of(&r[1]),
+                    rustybgp_packet::PathNlri {
+                        path_id: r[3].u32(),
+                        nlri: mon::nlri_of(&r[2]),
+                    },
+                    mon::nexthop_of(&r[4]),
+                    mon::attrs_of(&r[5]),
+                    None,
+                    0,
+                );
+            }
+            let (d4, s4) = changes_val(&tables.collect_loc_rib_paths(Family::IPV4));
+            let (d6, s6) = changes_val(&tables.collect_loc_rib_paths(Family::IPV6));
+            let path = format!("{}.dump", std::env::var("VERIF_OUT").expect("VERIF_OUT"));
+            let rt = tokio::runtime::Builder::new_current_thread()
+                .enable_all()
+                .build()
+                .unwrap();
+            let t0 = now_secs();
+            rt.block_on(async {
+                let mut file = tokio::fs::File::create(&path).await.unwrap();
+                dump_table(mon::v4_of(&l[1]), &tables, &mut file).await.unwrap();
+                file.flush().await.unwrap();
+            });
+            let t1 = now_secs();
+            let bytes = std::fs::read(&path).unwrap();
+            let _ = std::fs::remove_file(&path);
+            // one wall-clock timestamp is used for every record and entry of a dump: it is
+            // read from the first record, checked against the call window, and handed to the model
+            let ts = if bytes.len() >= 4 {
+                u32::from_be_bytes([bytes[0], bytes[1], bytes[2], bytes[3]])
+            } else {
+                0
+            };
+            Val::L(vec![
+                Val::from_bytes(&bytes),
+                Val::n(ts),
+                Val::b(ts >= t0 && ts <= t1),
+                d4,
+                d6,
+                s4,
+                s6,
+            ])
+        }
+        t => panic!("verif: bad case tag {}", t),
+    }
+}
+
+#[test]
+fn verif_mrt_cases() {
+    val::run_cases(run_case);
+}
